@@ -189,9 +189,11 @@ pub fn verdict(value: Option<&str>, pairs: &[(String, String)]) -> Verdict {
     if trimmed != value && exact(trimmed, pairs).is_some() {
         return Verdict::Either("optional-whitespace");
     }
+    // (the statement spells the scheme: "`Basic ` followed by the base64 … exactly; every other request is answered 401" —
+    // `basic <correct token>` is another request, whatever RFC 9110 says about the case of scheme names)
     let b = value.as_bytes();
     if b.len() >= 6 && b[..5].eq_ignore_ascii_case(b"basic") && b[5] == b' ' && exact(&format!("Basic {}", &value[6..]), pairs).is_some() {
-        return Verdict::Either("scheme-letter-case");
+        return Verdict::Reject("scheme-letter-case");
     }
     Verdict::Reject(why_refused(value, pairs))
 }
@@ -597,7 +599,7 @@ impl Property for C13 {
     const RULE: &'static str = "generated: 1–4 (user, password) pairs — users without `:`, passwords with colons, empty parts, Unicode and control characters, Latin-1 supplement letters, parts of 90–240 characters, later pairs derived from earlier ones (password/user extended or shortened by a character, same user, same password, `p:x`, swapped) — configured as the bare BasicAuth (one pair) or [BasicAuth; N], over &'static str or String × an Authorization value: correct for pair i; user of i with password of j; the decoded text with a character inserted/removed/replaced at a sampled position (start, end, around the colon); no colon; other scheme words and letter cases; `Basic` without space; extra spaces (doubled, leading, trailing, inside, second word); damaged base64 (padding removed/added, url-safe alphabet, foreign symbol, truncated, extended, unused bits set); credentials with bytes that are not UTF-8 at the start, in the middle and at the END; base64 of arbitrary bytes; the ISO-8859-1 bytes of the configured text; arbitrary printable values; missing header × 7 methods. A router with the fang on the root is built per case; the correct value of the pair the recipe is derived from is sent first (control), then the case's value. Oracle: own RFC 4648 encoder; the value equals `Basic ` + base64(u:p) of a configured pair ⇒ 200 and the handler ran once; otherwise 401, every WWW-Authenticate value starts with `Basic`, the handler did not run; never a panic. Non-trivial = a refused value derived from a configured pair by one change, or an admitted value when several pairs are configured; distinct by case.";
     const ASSUMPTIONS: &'static [&'static str] = &[
         "usernames contain no `:` (RFC 7617)",
-        "don't-care: letter case of the scheme word with otherwise correct credentials; optional whitespace around the field value (C02's soft class)",
+        "don't-care: optional whitespace around the field value (C02's soft class); the scheme word in another letter case is refused, as the statement spells it",
         "OPTIONS: the fang does not bypass, so a wrong value must be answered 401 like any other request; with correct credentials the automatic OPTIONS handler answers and only `not 401, protected handler did not run` is demanded",
         "field values are printable ASCII without CR/LF/NUL (credentials themselves are arbitrary: they travel base64-encoded)",
     ];
